@@ -509,7 +509,7 @@ class C14:
             "that basename; no decoy is placed; non-trivial when pre-populated, a decoy is present or the rebuild "
             "is repeated; distinct by (C13 signature, pre-population kinds, repeats)")
     required = ("snapshots_compared", "copy_events", "prepop_wrong", "prepop_shorter", "prepop_shorter-wrong", "prepop_correct",
-                "repeat_runs", "decoy_met_first", "placed_files_checked")
+                "repeat_runs", "decoy_met_first", "placed_files_checked", "candidate_spoiled_between_rebuilds")
     assumptions = C13.assumptions
 
     @staticmethod
@@ -517,6 +517,7 @@ class C14:
         kinds = rng.sample(["correct", "wrong", "shorter", "shorter-wrong", "unrelated"], rng.choice([0, 1, 1, 2, 3]))
         case = gen_scenario(rng, tier, prepop_kinds=kinds)
         case["repeats"] = rng.choice([1, 1, 2, 3])
+        case["spoil_between"] = case["repeats"] > 1 and rng.random() < 0.4
         return case
 
     @staticmethod
@@ -541,6 +542,26 @@ class C14:
         decoy_first = 0
         returned = []
         for rep in range(case["repeats"]):
+            if rep and case.get("spoil_between") and world.get("copies"):
+                # between two rebuilds the USER overwrites a verified candidate in place (same path, same size, every
+                # byte different) and removes what had been rebuilt from it: it is a decoy now and must not be placed
+                rng3 = random.Random(case["seed"] + rep)
+                cands = [c for c in world["copies"] if c[1] > 0]
+                if cands:
+                    victim, size = rng3.choice(cands)
+                    with open(victim, "rb") as fd:
+                        good = fd.read()
+                    bad = bytes((b % 255) + 1 for b in good)
+                    with open(victim, "wb") as fd:
+                        fd.write(bad)
+                    world["decoy_digests"][hashlib.sha256(bad).hexdigest()] = victim
+                    world["search_files"].setdefault(os.path.basename(victim), set()).add(hashlib.sha256(bad).hexdigest())
+                    gd = hashlib.sha256(good).hexdigest()
+                    for full, (ln, dig) in world["placed_expect"].items():
+                        dp = os.path.join(world["dest"], full)
+                        if dig == gd and os.path.basename(full) == os.path.basename(victim) and os.path.isfile(dp):
+                            os.remove(dp)
+                    counters["candidate_spoiled_between_rebuilds"] = 1
             before_src = {r: env.snapshot(r) for r in src_roots}
             before_dst = env.snapshot(world["dest"]) if os.path.exists(world["dest"]) else {}
             captured = {}
